@@ -5,6 +5,7 @@
 From stdpp Require Import gmap.
 From Coq Require Import NArith.
 From SkV Require Import Bytes Codec Ledger ChainState ChainDefs ForkChoiceProofs.
+From SkV Require NodeModel StaleMinerProofs.
 
 Theorem C04_head : forall sha l s, arrivals sha l s -> l <> [] ->
   exists hb, cs_cur s = Some (block_id sha hb) /\ stored sha s hb /\
@@ -39,8 +40,32 @@ Example C04_example_head_first_seen :
   cs_cur ForkChoiceProofs.Example.s3 = Some (block_id ForkChoiceProofs.Example.sha ForkChoiceProofs.Example.c1).
 Proof. exact ForkChoiceProofs.Example.ex_head. Qed.
 
+(* node level (known finding J): arrivals reach the served state from two threads.  The node model's found-block handler
+   adds the found block to the CURRENT served state and never loses a served block; the shipped miner thread adds it to the
+   snapshot of its last work request -- the two agree when nothing was adopted in between, and otherwise an adopted block
+   vanishes and an equally high, later-arrived block becomes the head *)
+Theorem C04_found_block_keeps_served_blocks : forall tx_valid_at s b valid s' o x,
+  NodeModel.handle_mined tx_valid_at s b valid = (s', o) -> List.In x (NodeModel.ns_blocks s) -> List.In x (NodeModel.ns_blocks s').
+Proof. exact StaleMinerProofs.handle_mined_keeps_blocks. Qed.
+
+Theorem C04_snapshot_handler_agrees_without_adoption : forall tx_valid_at s b valid,
+  StaleMinerProofs.handle_mined_snapshot tx_valid_at (NodeModel.ns_blocks s) (NodeModel.ns_head s) s b valid =
+  NodeModel.handle_mined tx_valid_at s b valid.
+Proof. exact StaleMinerProofs.snapshot_current_agrees. Qed.
+
+Theorem C04_stale_snapshot_drops_adopted_block_refuted :
+  exists (tx_valid_at : N -> N -> bool) snap_blocks snap_head s b s' o adopted,
+    List.In adopted (NodeModel.ns_blocks s) /\ NodeModel.ns_head s = NodeModel.ab_id adopted /\
+    NodeModel.ab_height adopted = NodeModel.ab_height b /\
+    StaleMinerProofs.handle_mined_snapshot tx_valid_at snap_blocks snap_head s b true = (s', o) /\
+    ~ List.In adopted (NodeModel.ns_blocks s') /\ NodeModel.ns_head s' = NodeModel.ab_id b.
+Proof. exact StaleMinerProofs.stale_snapshot_drops_adopted_block_refuted. Qed.
+
 Print Assumptions C04_head.
 Print Assumptions C04_tips.
 Print Assumptions C04_index.
 Print Assumptions C04_forks_lca.
 Print Assumptions C04_ids.
+Print Assumptions C04_found_block_keeps_served_blocks.
+Print Assumptions C04_snapshot_handler_agrees_without_adoption.
+Print Assumptions C04_stale_snapshot_drops_adopted_block_refuted.
